@@ -59,6 +59,62 @@ func importPub(t *rapid.T, p ref.Pt, route string) *secec.PublicKey {
 		}
 		k, err = secec.NewPublicKeyFromPoint(src)
 		src.Identity()
+	case "point-computed-in-place":
+		// the caller's Point object first held a decoded point (another one) and was then overwritten in place by
+		// an operation whose result is p: whatever the object remembers about how it was filled first must not
+		// leak into the key (a peer's key tweaked in place is the everyday case)
+		var q *secp256k1.Point
+		op := gen.Sampled([]string{"scalarmult", "scalarmult", "add", "double", "negate", "multi", "multi-vartime", "double-scalar"}).Draw(t, "inplace-op")
+		from := func(b ref.Pt) *secp256k1.Point {
+			var q *secp256k1.Point
+			var e error
+			switch gen.Sampled([]string{"compressed", "uncompressed", "coords"}).Draw(t, "inplace-first") {
+			case "compressed":
+				q, e = secp256k1.NewIdentityPoint().SetCompressedBytes(b.Compressed())
+			case "uncompressed":
+				q, e = secp256k1.NewIdentityPoint().SetUncompressedBytes(b.Uncompressed())
+			default:
+				q, e = secp256k1.NewPointFromCoords((*[32]byte)(ref.B32(b.X)), (*[32]byte)(ref.B32(b.Y)))
+			}
+			if e != nil {
+				t.Fatalf("decoding %v: %v", b, e)
+			}
+			return q
+		}
+		tw := gen.NonZero256(t, ref.N, "inplace-t")
+		base := p.Mul(ref.Inv0(tw, ref.N)) // tw * base = p
+		switch op {
+		case "scalarmult":
+			q = from(base)
+			q.ScalarMult(lib.Sc(tw), q)
+		case "multi":
+			q = from(base)
+			q.MultiScalarMult([]*secp256k1.Scalar{lib.Sc(tw)}, []*secp256k1.Point{q})
+		case "multi-vartime":
+			q = from(base)
+			q.MultiScalarMultVartime([]*secp256k1.Scalar{lib.Sc(tw)}, []*secp256k1.Point{q})
+		case "double-scalar":
+			q = from(base)
+			q.DoubleScalarMultBasepointVartime(secp256k1.NewScalar(), lib.Sc(tw), q)
+		case "add":
+			if b := p.Add(ref.G().Neg()); !b.Inf {
+				q = from(b)
+				q.Add(q, secp256k1.NewGeneratorPoint())
+			}
+		case "double":
+			if b := p.Mul(ref.Inv0(big.NewInt(2), ref.N)); !b.Inf {
+				q = from(b)
+				q.Double(q)
+			}
+		case "negate":
+			q = from(p.Neg())
+			q.Negate(q)
+		}
+		if q == nil {
+			q = from(p)
+		}
+		k, err = secec.NewPublicKeyFromPoint(q)
+		q.Identity()
 	case "point-derived":
 		q := secp256k1.NewIdentityPoint().Add(lib.Pt(p), secp256k1.NewGeneratorPoint())
 		q.Subtract(q, secp256k1.NewGeneratorPoint())
@@ -77,7 +133,7 @@ func overwrite(b []byte) {
 	}
 }
 
-var routes = []string{"uncompressed", "compressed", "spki", "spki-compressed", "point", "point-derived", "point-after-failed-decode"}
+var routes = []string{"uncompressed", "compressed", "spki", "spki-compressed", "point", "point-derived", "point-after-failed-decode", "point-computed-in-place"}
 
 // rejectedEncoding draws an encoding every decoder must reject, one per
 // failure class (each class fails at a different stage of the decoder).
